@@ -294,6 +294,32 @@ func verifCacheCase(dir string, caseNo int, line string) (string, string) {
 	}
 	var st verifStats
 	fail := &verifFail{}
+	// first announcements racing a dump: on a cache of its own, each of eight rounds runs one Dump and the first insert
+	// into a shard that is still empty at the same time (a dump that reads a live shard map without its lock shows here,
+	// whatever the rest of the case does)
+	{
+		fresh := GetCache(filepath.Join(dir, "no-such-file"))
+		for round := 0; round < 8 && round < len(keys); round++ {
+			k := keys[len(keys)-1-round]
+			var pw sync.WaitGroup
+			pw.Add(2)
+			file := filepath.Join(dir, fmt.Sprintf("dump-%d-first-%d.json", caseNo, round))
+			go func() {
+				defer pw.Done()
+				if err := fresh.Dump(file); err != nil {
+					fail.set("Dump failed: %v", err)
+				}
+			}()
+			go func() {
+				defer pw.Done()
+				fresh.insert(k.id, k.addr, verifTemplate(len(keys)-1-round, 1<<6|uint32(verifMaxG-1)))
+			}()
+			pw.Wait()
+			if loaded := GetCache(file); len(loaded) != len(fresh) {
+				fail.set("GetCache(first-announcement dump) returned %d shards", len(loaded))
+			}
+		}
+	}
 	var wg sync.WaitGroup
 	stop := make(chan struct{})
 	deadline := time.Now().Add(time.Duration(ms) * time.Millisecond)
